@@ -36,7 +36,7 @@ CONSTANTS Families,   \* records [name, dim, constraints (set of positions), per
 CONSTANTS W2s        \* values of floor(2 w) of the width the fit is started with (sets the size of the region)
 
 \* env: facts about the image/candidate pair the protocol branches on.  support: the dilated binary image of the
-\* candidate contains a support point; flat: the intensity range vmax - vmin used for the fit is zero; w2 = floor(2 w)
+\* candidate contains a support point; flat: the intensity range vmax - vmin used for the fit is zero; w2 = floor(2 w / h), the width counted in cells of size h (the typical discretisation)
 VARIABLES req, env, pc, cls, width, iters, free, lower, upper, nextra, xlo, xhi, cost, wrapped
 vars == <<req, env, pc, cls, width, iters, free, lower, upper, nextra, xlo, xhi, cost, wrapped>>
 
@@ -57,6 +57,7 @@ Adjust(r) == r.levels \in {"adjust", "autoadjust"}
 \* levels would need vmin = vmax to be supplied, which is modelled as well (the fit is then a no-op)
 Envs(r) == {e \in [support : BOOLEAN, flat : BOOLEAN, w2 : W2s] :
               /\ (r.width = "zero" => e.w2 = 0)
+              /\ (r.width = "none" => e.w2 = 2)      \* default width = one cell, on every grid
               /\ (~e.support => ~e.flat)}          \* without a region there are no levels to speak of
 Init == /\ req \in {r \in Requests : Valid(r)}
         /\ env \in Envs(req)
